@@ -108,9 +108,9 @@ func musigConfigs(ctx *vrun.Ctx) []musigCfg {
 	} else {
 		cs = append(cs, musigCfg{name: "algebra-2signers", q: 5, signers: 2, tweaks: 2, keys: nz5, coefs: all5, tvals: []int{1, 3}, n1: nz5, n2: []int{1, 2},
 			bvals: all5, evals: []int{2}, sorts: []bool{false}, apis: []string{"raw"}, taps: gen, timeout: 28 * time.Minute})
-		cs = append(cs, musigCfg{name: "algebra-3signers", q: 5, signers: 3, tweaks: 1, keys: nz5, coefs: []int{0, 2, 3}, tvals: []int{1, 3}, n1: []int{1, 2, 4}, n2: []int{1},
+		cs = append(cs, musigCfg{name: "algebra-3signers", q: 5, signers: 3, tweaks: 1, keys: nz5, coefs: []int{0, 2, 3}, tvals: []int{3}, n1: []int{1, 2, 4}, n2: []int{1},
 			bvals: all5, evals: []int{2}, sorts: []bool{false}, apis: []string{"raw"}, taps: gen, timeout: 28 * time.Minute})
-		cs = append(cs, musigCfg{name: "algebra-q7-sorted-faults", q: 7, signers: 2, tweaks: 1, keys: seq(1, 6), coefs: []int{0, 3, 5}, tvals: []int{0, 2, 5}, n1: []int{1, 2, 3, 5}, n2: []int{1},
+		cs = append(cs, musigCfg{name: "algebra-q7-sorted-faults", q: 7, signers: 2, tweaks: 1, keys: seq(1, 6), coefs: []int{0, 3, 5}, tvals: []int{0, 2, 5}, n1: []int{1, 3, 5}, n2: []int{1},
 			bvals: seq(0, 6), evals: []int{3}, sorts: []bool{true}, apis: []string{"raw"}, taps: gen, faults: true, timeout: 28 * time.Minute})
 		cs = append(cs, musigCfg{name: "session-2signers", q: 5, signers: 2, tweaks: 1, noise: 1, keys: []int{1, 3}, coefs: []int{2}, tvals: []int{1}, n1: []int{1, 4}, n2: []int{1, 4},
 			bvals: []int{1}, evals: []int{2}, sorts: []bool{false}, apis: []string{"session"}, taps: gen, faults: true, timeout: 28 * time.Minute})
